@@ -26,7 +26,12 @@ polygons aligned to cell corners / centres or placed freely (inside, overlapping
 state histories on ONE Grid object and its clones (corpus/C15/history.json first, then random): 2-4 queries with
 re-assignment of xllcorner / yllcorner / cellsize or clone()+re-assignment in between, grid and polygon translated
 together, legitimate reuse with another polygon - every query judged (model and oracle) on the geometry the
-object has at that moment; a malformed stream (empty polygon, answer vector of the wrong length, no points).
+object has at that moment; state histories on one set of argument arrays of points_inside_polygon (corpus first, then random): 2-4 calls with
+the polygon / points array edited in place (same size), the returned vector scribbled on, the caller's `inside`
+buffer pre-filled and re-used, other arguments or another tolerance in between; Grid histories also edit the
+returned table and the polygon array in place and go through deepcopy / pickle; a malformed stream exercising the
+wrapper's guards by name and in combination (answer vector of another dtype / length, points or polygon without
+exactly two columns, empty polygon, no points); the exact model is also evaluated along rays aimed at vertices.
 A case is non-trivial when the polygon has >= 3 vertices and the code answers 1 for some points and 0 for others.
 """
 import json
@@ -348,12 +353,19 @@ def body(ctx):
             else:
                 r = gutils.points_inside_polygon(pa, ya, **kw)
             return "ok " + bits(r), r
-        except ValueError as e:
-            msg = str(e)
-            return "err " + ("insideLength" if "Expected inside of length" in msg else
-                             "emptyPolygon" if "zero-size array" in msg else "other:" + msg[:60]), None
         except Exception as e:  # noqa
-            return f"err other:{type(e).__name__}", None
+            return err_name(e), None
+
+    def err_name(e):
+        """error kinds by name (which guard fired), never by message text beyond the stable first words"""
+        msg = str(e)
+        if isinstance(e, ValueError):
+            return "err " + ("insideDtype" if "Expected inside of dtype" in msg else
+                             "insideLength" if "Expected inside of length" in msg else
+                             "emptyPolygon" if "zero-size array" in msg else "other:" + msg[:60])
+        if isinstance(e, AssertionError):
+            return "err shapeAssert"
+        return f"err other:{type(e).__name__}"
 
     def far_mask(ep, poly, npts_, tolrel=RELTOL):
         """exact distance clause of the property, per point"""
@@ -424,8 +436,21 @@ def body(ctx):
             tol = max(Fraction(atol) * 2, Fraction(RELTOL) * Fraction(ep.size, ep.den)) * ep.den
             t2 = tol * tol
             farq = [ep.dist2_gt(P, t2.numerator, t2.denominator) for P in ep.P]
-            qreqs.append(f"pipq {C.f2h(atol)} {pm} {tm}")
-            qinfo.append((case, bits(got), farq))
+            # any ray direction, also straight through vertices (the model's half-open rule in the rotated frame)
+            if rng.random() < 0.5 and len(poly) >= 2:
+                va, vb = poly[rng.randrange(len(poly))], pts[rng.randrange(len(pts))]
+                dq = (Fraction(va[0]) - Fraction(vb[0]), Fraction(va[1]) - Fraction(vb[1]))
+                # integer direction parallel to (vertex - point) when that is representable with small integers
+                den = max(dq[0].denominator, dq[1].denominator)
+                di = (int(dq[0] * den), int(dq[1] * den))
+                g = math.gcd(abs(di[0]), abs(di[1])) or 1
+                di = (di[0] // g, di[1] // g)
+                if di == (0, 0) or max(abs(di[0]), abs(di[1])) > 10 ** 12:
+                    di = rng.choice(DIRECTIONS)
+            else:
+                di = rng.choice(DIRECTIONS + [(1, 0), (-1, 0), (0, 1), (0, -1)])
+            qreqs.append(f"pipq {C.f2h(atol)} {pm} {tm} {di[0]} {di[1]}")
+            qinfo.append(({**case, "direction": list(di)}, bits(got), farq))
         # invariances on the real code (a subset of the polygons)
         if allow_invariance and in_quantifier(poly, atol) and far is not None and rng.random() < 0.35:
             n = len(poly)
@@ -498,26 +523,186 @@ def body(ctx):
         pts, kinds = gen_points(rng, poly, rng.choice([1000, 2500, 4097]))
         run_case(fam, poly, closed, pts, kinds, ATOL, rng.choice(["default", "prefilled"]), allow_invariance=False)
 
-    # ---------------------------------------------------------------- malformed stream
-    for _ in range(ctx.scale(20, 100)):
+    # ---------------------------------------------------------------- malformed stream (the wrapper's guards, by name)
+    for _ in range(ctx.scale(60, 400)):
         fam, poly, _c = gen_polygon(rng, 6)
         pts, _k = gen_points(rng, poly, rng.randint(0, 5))
-        kind = rng.choice(["empty_polygon", "inside_length", "no_points"])
+        kind = rng.choice(["empty_polygon", "inside_length", "inside_dtype", "points_width", "polygon_width",
+                           "several", "no_points", "well_formed"])
+        pw, tw, ilen, i32 = 2, 2, -1, 1
+        use_poly = poly
         if kind == "empty_polygon":
-            impl, _ = call_pip(pts, [])
-            add(f"pipf {C.f2h(ATOL)} [] {C.fmat(pts)} -1", impl, {"malformed": kind, "points": pts})
+            use_poly = []
         elif kind == "inside_length":
-            ln = len(pts) + rng.choice([1, 2, -1]) if len(pts) else 1
-            ln = max(ln, 0)
-            if ln == len(pts):
-                ln += 1
-            impl, _ = call_pip(pts, poly, inside=np.zeros(ln, dtype=np.int32))
-            add(f"pipf {C.f2h(ATOL)} {C.fmat(poly)} {C.fmat(pts)} {ln}", impl,
-                {"malformed": kind, "points": pts, "polygon": poly, "inside_len": ln})
-        else:
-            impl, _ = call_pip([], poly)
-            add(f"pipf {C.f2h(ATOL)} {C.fmat(poly)} [] -1", impl, {"malformed": kind, "polygon": poly})
-        ctx.count(("malformed", kind, repr(poly), repr(pts)), False, "malformed:" + kind)
+            ilen = len(pts) + rng.choice([1, 2, -1]) if len(pts) else 1
+        elif kind == "inside_dtype":
+            ilen, i32 = rng.choice([len(pts), len(pts) + 1]), 0
+        elif kind == "points_width":
+            tw = rng.choice([1, 3, 4])
+        elif kind == "polygon_width":
+            pw = rng.choice([1, 3])
+        elif kind == "several":
+            # several guards at once: the FIRST one in the code's order decides
+            if rng.random() < 0.5:
+                ilen, i32 = rng.choice([len(pts), len(pts) + 2]), rng.choice([0, 1])
+            if rng.random() < 0.5:
+                tw = rng.choice([1, 3])
+            if rng.random() < 0.5:
+                pw = rng.choice([1, 3])
+            if rng.random() < 0.4:
+                use_poly = []
+        elif kind == "no_points":
+            pts = []
+        elif kind == "well_formed":
+            ilen = rng.choice([-1, len(pts)])
+        ilen = max(ilen, -1)
+
+        def widen(rows, wd):
+            a2 = np.array(rows, dtype=np.float64).reshape(-1, 2)
+            if wd == 2:
+                return a2
+            if wd == 1:
+                return np.ascontiguousarray(a2[:, :1])
+            return np.ascontiguousarray(np.hstack([a2, np.zeros((len(a2), wd - 2))]))
+        pa, ya = widen(pts, tw), widen(use_poly, pw)
+        kw = {}
+        if ilen >= 0:
+            kw["inside"] = np.ones(ilen, dtype=np.int32 if i32 else rng.choice([np.int64, np.float64, bool, np.uint8]))
+        try:
+            r = gutils.points_inside_polygon(pa, ya, **kw)
+            impl = "ok " + bits(r)
+        except Exception as e:  # noqa
+            impl = err_name(e)
+        # the model receives the first two columns (a missing second column as zeros; unused when the width is wrong)
+        m_pts = [(float(r_[0]), float(r_[1]) if tw >= 2 else 0.0) for r_ in pa]
+        m_poly = [(float(r_[0]), float(r_[1]) if pw >= 2 else 0.0) for r_ in ya]
+        add(f"pipcall {C.f2h(ATOL)} {pw} {C.fmat(m_poly)} {tw} {C.fmat(m_pts)} {ilen} {i32}", impl,
+            {"malformed": kind, "points": m_pts, "polygon": m_poly, "points_width": tw, "polygon_width": pw,
+             "inside_len": ilen, "inside_int32": bool(i32)})
+        ctx.count(("malformed", kind, pw, tw, ilen, i32, repr(m_poly), repr(m_pts)), False,
+                  "malformed:" + kind + ":" + impl.split()[1 if impl.startswith("err") else 0])
+
+    # ---------------------------------------------------------------- histories on one set of arguments
+    # call -> (edit the polygon / the points array in place | scribble on the returned vector | other arguments |
+    # toggle / re-use the caller's `inside` buffer | other tolerance) -> call again ...; EVERY answer is compared with
+    # the model and the oracle evaluated on the arrays' CURRENT content.
+    #   {"op": "call", "inside": "buffer" | "none"}      {"op": "polygon", "values": [...]}  (in place when same shape)
+    #   {"op": "points", "values": [...]}  (in place when same shape)   {"op": "scribble", "value": v}  {"op": "atol", "value": a}
+    def run_pip_history(steps, label):
+        st = {"P": None, "Y": None, "buf": None, "atol": ATOL, "last": None, "after": "fresh", "ncalls": 0}
+        done = []
+        for stp in steps:
+            done.append(stp)
+            op = stp["op"]
+            if op in ("polygon", "points"):
+                key = "Y" if op == "polygon" else "P"
+                new = np.array(stp["values"], dtype=np.float64).reshape(-1, 2)
+                if st[key] is not None and st[key].shape == new.shape and stp.get("inplace", True):
+                    st[key][:] = new                       # same array object, same size, new content
+                    st["after"] = op + "_edited_in_place"
+                else:
+                    st[key] = new
+                    st["after"] = "new_" + op
+                if op == "points" and st["buf"] is not None and len(st["buf"]) != len(new):
+                    st["buf"] = None
+            elif op == "scribble":
+                if st["last"] is not None:
+                    try:
+                        st["last"][:] = stp["value"]
+                    except Exception:  # noqa  (read-only result: nothing to scribble on)
+                        pass
+                    st["after"] = "result_scribbled"
+            elif op == "atol":
+                st["atol"] = float(stp["value"])
+                st["after"] = "other_atol"
+            else:
+                kw = {}
+                if st["atol"] != ATOL or stp.get("explicit_atol"):
+                    kw["atol"] = st["atol"]
+                if stp.get("inside") == "buffer":
+                    if st["buf"] is None or len(st["buf"]) != len(st["P"]):
+                        st["buf"] = np.full(len(st["P"]), rng.choice([0, 1, 5]), dtype=np.int32)
+                    kw["inside"] = st["buf"]
+                try:
+                    r = gutils.points_inside_polygon(st["P"], st["Y"], **kw)
+                    impl = "ok " + bits(r)
+                except Exception as e:  # noqa
+                    r, impl = None, err_name(e)
+                st["last"] = r
+                pts = [tuple(map(float, q)) for q in st["P"]]
+                poly = [tuple(map(float, q)) for q in st["Y"]]
+                tag = "points_inside_polygon" if st["ncalls"] == 0 else "points_inside_polygon/history/after_" + st["after"]
+                if "inside" in kw:
+                    tag += "+buffer" if st["ncalls"] else ""
+                case = {"family": label, "polygon": poly, "points": pts, "atol": st["atol"],
+                        "history": [dict(d) for d in done]}
+                add(f"pipf {C.f2h(st['atol'])} {C.fmat(poly)} {C.fmat(pts)} {len(kw['inside']) if 'inside' in kw else -1}",
+                    impl, case)
+                ctx.count(("piph", st["ncalls"], repr(done)), r is not None and 0 < int(np.sum(r)) < len(pts),
+                          "pip_history:" + (st["after"] if st["ncalls"] else "first"))
+                if r is not None:
+                    far, exact = oracle_points(tag, label, poly, pts, ["point"] * len(pts), r, st["atol"])
+                    # re-state the finding with the history attached (the oracle's case has no history)
+                    for f_ in ctx.findings:
+                        if f_["signature"].startswith(tag + "/") and isinstance(f_["case"], dict) and "history" not in f_["case"]:
+                            f_["case"]["history"] = [dict(d) for d in done]
+                st["ncalls"] += 1
+                st["after"] = "call"
+
+    def gen_pip_history():
+        nmax_ = ctx.scale(10, 16)
+        fam, poly, _c = gen_polygon(rng, nmax_)
+        npts_ = rng.choice([8, 20, 40])
+        pts, _k = gen_points(rng, poly, npts_)
+        steps = [{"op": "polygon", "values": poly}, {"op": "points", "values": pts},
+                 {"op": "call", "inside": rng.choice(["none", "buffer"])}]
+        for _ in range(rng.randint(1, 3)):
+            act = rng.choice(["polygon_inplace", "polygon_inplace", "points_inplace", "scribble", "scribble",
+                              "new_polygon", "new_points", "atol", "same"])
+            if act == "polygon_inplace":
+                # same number of vertices, other content: shuffled, one vertex moved, translated, or a fresh
+                # polygon of the same family cut / padded to the same length
+                how = rng.choice(["shuffle", "move", "translate", "fresh"])
+                q = [tuple(p) for p in poly]
+                if how == "shuffle":
+                    rng.shuffle(q)
+                elif how == "move":
+                    i = rng.randrange(len(q))
+                    w = max(max(p[0] for p in q) - min(p[0] for p in q), max(p[1] for p in q) - min(p[1] for p in q)) or 1.0
+                    q[i] = (q[i][0] + rng.choice([-0.5, 0.25, 1.0]) * w, q[i][1] + rng.choice([0.5, -0.25, 1.0]) * w)
+                elif how == "translate":
+                    w = max(max(p[0] for p in q) - min(p[0] for p in q), max(p[1] for p in q) - min(p[1] for p in q)) or 1.0
+                    dx, dy = rng.choice([0.5, -0.25, 2.0]) * w, rng.choice([0.0, 0.5, -1.0]) * w
+                    q = [(x + dx, y + dy) for x, y in q]
+                else:
+                    _f, q2, _c2 = gen_polygon(rng, nmax_)
+                    q = (q2 * (len(q) // len(q2) + 1))[:len(q)]
+                poly = q
+                steps.append({"op": "polygon", "values": poly})
+            elif act == "points_inplace":
+                pts, _k = gen_points(rng, poly, len(pts))
+                steps.append({"op": "points", "values": pts})
+            elif act == "scribble":
+                steps.append({"op": "scribble", "value": rng.choice([1, 1, 7, -1])})
+            elif act == "new_polygon":
+                fam, poly, _c = gen_polygon(rng, nmax_)
+                steps.append({"op": "polygon", "values": poly, "inplace": False})
+            elif act == "new_points":
+                pts, _k = gen_points(rng, poly, rng.choice([len(pts), len(pts), 5, 33]))
+                steps.append({"op": "points", "values": pts, "inplace": False})
+            elif act == "atol":
+                steps.append({"op": "atol", "value": rng.choice([ATOL, 1e-3, 0.0, 0.3])})
+            steps.append({"op": "call", "inside": rng.choice(["none", "buffer", "buffer"])})
+        return fam, steps
+
+    pdir = C.ROOT / "corpus" / PID
+    if pdir.is_dir():
+        for f in sorted(pdir.glob("*.json")):
+            for ent in json.loads(f.read_text()).get("pip_histories", []):
+                run_pip_history(ent["steps"], "corpus:" + f.stem)
+    for _ in range(ctx.scale(250, 3000)):
+        fam, steps = gen_pip_history()
+        run_pip_history(steps, "history:" + fam)
 
     # ---------------------------------------------------------------- cells_inside_polygon
     def place_polygon(geom, nmax_):
@@ -541,15 +726,17 @@ def body(ctx):
             poly = [(ox + (x - min(xs)) * f, oy + (y - min(ys)) * f) for x, y in poly]
         return fam, kind, poly
 
-    def query_cells(gr, geom, poly, fam, kind, user_atol, tag, extra):
+    def query_cells(gr, geom, poly, fam, kind, user_atol, tag, extra, pa=None):
         """one call of cells_inside_polygon on the Grid object `gr` whose CURRENT geometry is `geom`:
         correspondence request (model evaluated on the current geometry) + independent oracle"""
         nrows, ncols, xll, yll, csz = geom
-        pa = np.array(poly, dtype=np.float64).reshape(-1, 2)
+        if pa is None:
+            pa = np.array(poly, dtype=np.float64).reshape(-1, 2)
         try:
             df = gr.cells_inside_polygon(pa) if user_atol is None else gr.cells_inside_polygon(pa, atol=user_atol)
             cells = [int(c) for c in df["cell"].values]
-            impl = "ok " + C.ilist(sorted(cells))
+            rows = sorted(zip(cells, df["x"].values, df["y"].values))      # listing order is not constrained
+            impl = "ok " + C.ilist(sorted(cells)) + " [" + ",".join(f"{C.f2h(x)}:{C.f2h(y)}:{c}" for c, x, y in rows) + "]"
         except Exception as e:  # noqa
             df, cells = None, None
             impl = f"err other:{type(e).__name__}"
@@ -559,12 +746,12 @@ def body(ctx):
                   cells is not None and 0 < len(cells) < nrows * ncols, "cells:" + kind,
                   sample={"grid": [nrows, ncols, xll, yll, csz], "polygon": poly[:6], "cells": (cells or [])[:10]})
         if cells is None:
-            return
+            return None
         # oracle: listed once, in range, coordinates are the centres, and (far centres) listed <=> inside
         ncell = nrows * ncols
         if len(set(cells)) != len(cells) or any(c < 0 or c >= ncell for c in cells):
             ctx.finding(f"{tag}/not_a_set_of_cells", "cell list has repeats or cells outside the grid", case)
-            return
+            return df
         centres = [(xll + csz * ((c % ncols) + 0.5), yll + csz * ((nrows - 1 - c // ncols) + 0.5)) for c in range(ncell)]
         for x, y, c in zip(df["x"].values, df["y"].values, cells):
             if (float(x), float(y)) != centres[c]:
@@ -590,6 +777,7 @@ def body(ctx):
                         ctx.finding(f"{tag}/far_centre/differs_from_even_odd",
                                     "a cell whose centre is farther than 1e-6 x size from every edge is listed although its centre is outside, or missing although inside",
                                     {**case, "cell": c, "centre": centres[c], "listed": c in listed, "even_odd": want})
+        return df
 
     CSZS = [1.0, 0.5, 2.0, 0.25, 0.1, 30.0, 1.0]
     XLLS = [0.0, -3.0, 0.5, 100.0, 0.3]
@@ -615,17 +803,26 @@ def body(ctx):
     # A history is (grid0, steps); steps refer to objects by index (0 = the grid built first, clones appended):
     #   {"op": "query", "on": i, "polygon": [...]}   {"op": "set", "on": i, "attrs": {...}}   {"op": "clone", "of": i}
     def run_history(grid0, steps, label):
+        import copy
+        import pickle
         nrows, ncols, xll, yll, csz = grid0
         objs = [Grid("g", ncols, nrows, csz, xll, yll)]
         geoms = [tuple(grid0)]
+        arrs = [None]        # the polygon array last handed to each object (re-used in place when asked)
+        dfs = [None]         # the table last returned by each object
         done = []
         last = ["fresh"]
         for st in steps:
             done.append(st)
-            if st["op"] == "clone":
-                objs.append(objs[st["of"]].clone())
-                geoms.append(geoms[st["of"]])
-                last.append("clone")
+            if st["op"] in ("clone", "roundtrip"):
+                j = st["of"]
+                how = st.get("how", "clone")
+                objs.append(objs[j].clone() if how == "clone" else copy.deepcopy(objs[j]) if how == "deepcopy"
+                            else pickle.loads(pickle.dumps(objs[j])))
+                geoms.append(geoms[j])
+                arrs.append(arrs[j])
+                dfs.append(None)
+                last.append(how)
             elif st["op"] == "set":
                 i = st["on"]
                 g = list(geoms[i])
@@ -633,14 +830,32 @@ def body(ctx):
                     setattr(objs[i], k, v)
                     g[{"xllcorner": 2, "yllcorner": 3, "cellsize": 4}[k]] = float(v)
                 geoms[i] = tuple(g)
-                last[i] = ("clone+" if last[i].startswith("clone") else "") + "set_" + "_".join(sorted(st["attrs"]))
+                last[i] = (last[i] + "+" if last[i] in ("clone", "deepcopy", "pickle") else "") + "set_" + "_".join(sorted(st["attrs"]))
+            elif st["op"] == "scribble":
+                i = st["on"]
+                if dfs[i] is not None:
+                    for col, val in (("x", 1e9), ("y", -1e9), ("cell", -7)):
+                        try:
+                            dfs[i][col].values[:] = val          # in place, through the column's buffer
+                        except Exception:  # noqa  (read-only buffer)
+                            try:
+                                dfs[i].loc[:, col] = val
+                            except Exception:  # noqa
+                                pass
+                last[i] = "result_scribbled"
             else:
                 i = st["on"]
                 poly = [tuple(map(float, p)) for p in st["polygon"]]
+                new = np.array(poly, dtype=np.float64).reshape(-1, 2)
+                if st.get("inplace") and arrs[i] is not None and arrs[i].shape == new.shape:
+                    arrs[i][:] = new                              # same array object, new vertices
+                    last[i] = last[i] + "+polygon_edited_in_place" if last[i] != "query" else "polygon_edited_in_place"
+                else:
+                    arrs[i] = new
                 nq_before = sum(1 for d in done[:-1] if d["op"] == "query")
                 tag = "cells_inside_polygon" if nq_before == 0 else "cells_inside_polygon/history/after_" + last[i]
-                query_cells(objs[i], geoms[i], poly, st.get("family", label), st.get("kind", "history"), None, tag,
-                            {"grid0": list(grid0), "history": [dict(d) for d in done]})
+                dfs[i] = query_cells(objs[i], geoms[i], poly, st.get("family", label), st.get("kind", "history"), None, tag,
+                                     {"grid0": list(grid0), "history": [dict(d) for d in done]}, pa=arrs[i])
                 ctx.hist["history:" + last[i]] = ctx.hist.get("history:" + last[i], 0) + 1
                 last[i] = "query"
 
@@ -664,9 +879,36 @@ def body(ctx):
         query(0)
         for _ in range(rng.randint(1, 3)):
             i = rng.randrange(len(geoms))
-            act = rng.choice(["set", "set", "clone_set", "clone_set", "together", "clone_together", "same", "clone_same"])
+            act = rng.choice(["set", "set", "clone_set", "clone_set", "together", "clone_together", "same", "clone_same",
+                              "scribble", "inplace", "inplace", "clone_roundtrip_set"])
+            if act == "scribble":
+                # the caller edits the returned table in place, then asks again (same or another polygon)
+                steps.append({"op": "scribble", "on": i})
+                if rng.random() < 0.5 and polys[i] is not None:
+                    query(i, polys[i])
+                else:
+                    query(i)
+                continue
+            if act == "inplace" and polys[i] is not None:
+                # the caller re-uses its polygon array: same number of vertices, other coordinates
+                q = [tuple(p) for p in polys[i]]
+                how = rng.choice(["shuffle", "move", "translate"])
+                nr, nc, xll, yll, csz = geoms[i]
+                if how == "shuffle":
+                    rng.shuffle(q)
+                elif how == "move":
+                    k = rng.randrange(len(q))
+                    q[k] = (q[k][0] + rng.choice([-2, 1, 3]) * csz, q[k][1] + rng.choice([2, -1, 3]) * csz)
+                else:
+                    dx, dy = rng.choice([1, -2, 0.5]) * csz, rng.choice([0, 1, -1.5]) * csz
+                    q = [(x + dx, y + dy) for x, y in q]
+                polys[i] = q
+                steps.append({"op": "query", "on": i, "polygon": [list(p) for p in q], "family": "edited", "kind": "history",
+                              "inplace": True})
+                continue
             if act.startswith("clone"):
-                steps.append({"op": "clone", "of": i})
+                steps.append({"op": "roundtrip", "of": i, "how": rng.choice(["pickle", "deepcopy"])}
+                             if "roundtrip" in act else {"op": "clone", "of": i})
                 geoms.append(geoms[i])
                 polys.append(polys[i])
                 if rng.random() < 0.3 and polys[i] is not None:
@@ -724,18 +966,18 @@ def body(ctx):
     njudged = 0
     for req, rep, (case, gotbits, farq) in zip(qreqs, qrep, qinfo):
         parts = rep.split()
-        if len(parts) != 5 or parts[0] != "ok":
+        if len(parts) != 6 or parts[0] != "ok":
             ctx.disagree("C15: exact model gives no answer", {"request": req[:2000], "model": rep, **case})
             continue
-        _, mq, eo, eol, eole = parts
+        _, mq, eo, eol, eole, eod = parts
         for i, f in enumerate(farq):
             if not f:
                 continue
             njudged += 1
-            if not (gotbits[i] == mq[i] == eo[i] == eol[i] == eole[i]):
+            if not (gotbits[i] == mq[i] == eo[i] == eol[i] == eole[i] == eod[i]):
                 ctx.disagree("C15: code, exact model and even-odd specification differ on a point farther than the tolerance from the boundary",
                              {"point": case["points"][i], "code": gotbits[i], "model_rat": mq[i], "evenOdd": eo[i],
-                              "evenOddLeft": eol[i], "evenOddLe": eole[i], **case})
+                              "evenOddLeft": eol[i], "evenOddLe": eole[i], "evenOddDir": eod[i], **case})
     ctx.hist["exact_model_points_judged"] = njudged
     ctx.extra["rule"] = __doc__.split("Cases:")[1].strip()
     ctx.assumptions += [
@@ -750,4 +992,4 @@ def main(tier, replay=None):
     return C.run_check(PID, tier, body, needs_native=True, replay=replay,
                        trusted=["numpy astype/min/max/boolean indexing and pandas.DataFrame construction (external, compared by result)",
                                 "Grid.cell2coord kernel (cell centres recomputed with plain arithmetic and compared)",
-                                "not formalised: a topological definition of 'interior'; the even-odd rule is the crossing parity of a horizontal ray with the half-open vertex rule (right = left proved; other directions by the exact oracle only)"])
+                                "not formalised: a topological (Jordan-curve) definition of 'interior'; the even-odd rule is the crossing parity of a ray with the half-open vertex rule, proved independent of the ray direction"])
